@@ -100,7 +100,7 @@ impl RoundTrip {
                 files: (0..n).map(|i| (format!("m{:05}.dat", i), gen::content(gen::TEXTURES[i % gen::TEXTURES.len()], 1 + (i * 7) % 61, 4096, 1000 + i as u64))).collect(),
             })
             .collect();
-        let threads = tier.pick(vec![Some(1), None], vec![Some(1), Some(3), None]);
+        let threads = tier.pick(vec![Some(1), None], vec![Some(1), None]);
         let allowed = tier.pick(
             [vec![0, 1], vec![0], vec![1], vec![0, 1], vec![0, 3]],
             [vec![0, 1, 2], vec![0, 1], vec![0, 1], vec![0, 1], vec![0, 1, 2, 3]],
@@ -612,7 +612,7 @@ fn main() {
          A case is non-trivial when the tool was actually started on the prepared input and ended with an exit status; distinct by (template, seed, damage) resp. by the axis tuple.",
         nsets = filesets(tier).len(),
         many = tier.pick("{1000,1001,1030}", "{999,1000,1001,1013,1030,2013,5000,5001,5003,5037}"),
-        many_axes = tier.pick("x selection {all, explicit} x version {v1,v4} x compression {none,zlib}, listfile on, threads {1,default}", "x selection {all, explicit, explicit+missing} x skip-errors x listfile x version {v1..v4} x compression {none,zlib}, threads {1,3,default} x preserve-paths"),
+        many_axes = tier.pick("x selection {all, explicit} x version {v1,v4} x compression {none,zlib}, listfile on, threads {1,default}", "x selection {all, explicit, explicit+missing} x skip-errors x listfile x version {v1..v4} x compression {none,zlib}, threads {1,default} x preserve-paths"),
         more_sets = tier.pick("", " / forty files / sector-boundary sizes + 300 KiB incompressible / case, dots and non-ASCII names / backslash in name"),
         threads = tier.pick("{1,8}", "{1,2,8,default}"),
         ntpl = subcmd::templates().len(),
